@@ -766,11 +766,16 @@ func main() {
 	n := flag.Int("n", 3000, "approximate number of trace lines")
 	out := flag.String("out", "c05.trace", "trace file")
 	maxMut := flag.Int("mut", 0, "max mutants per valid proof (0: all)")
+	expect := flag.String("expect", "", "repairs the code is expected to have, e.g. \"strict=1 dup=1 succ=1\" (empty: whatever the probe finds)")
 	flag.Parse()
 	log.SetOutput(io.Discard)
 	r := gen.New(*seed)
 	t := gen.NewTrace(*out)
-	t.Line("mode", false, "mode %s => -", probeMode())
+	exp := "-"
+	if *expect != "" {
+		exp = *expect
+	}
+	t.Line("mode", false, "mode %s => %s", probeMode(), exp)
 	for t.Lines < *n {
 		history(r, t, *n/4+100, *maxMut)
 	}
